@@ -4,6 +4,9 @@ package main
 // rigid links for read-only AST units.
 
 import (
+	"crypto/sha256"
+	"encoding/hex"
+	"encoding/json"
 	"fmt"
 	"go/ast"
 	"go/types"
@@ -30,6 +33,26 @@ type Engine struct {
 	specDir   string
 	preludes  map[string]string // name -> text
 	modelSort map[string]string
+	pins      map[string]string // trusted unit -> pinned body hash
+}
+
+// bodyPin: a short hash of the unit's body as printed (comments and layout do not count).
+func (en *Engine) bodyPin(u *UnitInfo) string {
+	if u.Body == nil {
+		return "none"
+	}
+	sum := sha256.Sum256([]byte(exprText(en, u.Body)))
+	return hex.EncodeToString(sum[:6])
+}
+
+func (en *Engine) trustedPins() map[string]string {
+	if en.pins == nil {
+		en.pins = map[string]string{}
+		if data, err := os.ReadFile(filepath.Join(en.specDir, "trusted_pins.json")); err == nil {
+			_ = json.Unmarshal(data, &en.pins)
+		}
+	}
+	return en.pins
 }
 
 func (x *Exec) lateKey(v *types.Var) string { return fmt.Sprintf("late:%s@%d", v.Name(), v.Pos()) }
@@ -94,7 +117,7 @@ func (en *Engine) newExec(u *UnitInfo) *Exec {
 	psorts := map[string]bool{}
 	pre := ""
 	// fixed tag table for go/ast nodes (sorted, so that preludes can name them)
-	x := &Exec{prog: en.prog, unit: u, info: u.Pkg.TypesInfo, nameCnt: map[string]int{}, hdr: map[string]Term{},
+	x := &Exec{en: en, prog: en.prog, unit: u, info: u.Pkg.TypesInfo, nameCnt: map[string]int{}, hdr: map[string]Term{},
 		assumed: map[string]bool{}, revealed: map[string]bool{}, maxPaths: 4000, callOrd: map[string]int{}, loopOrd: map[ast.Stmt]int{},
 		modelSort: map[string]string{}, modelType: map[string]types.Type{}, prov: map[string]string{}}
 	x.d = newDecls("", sigs, psorts)
@@ -176,7 +199,18 @@ func (en *Engine) verifyUnit(u *UnitInfo) *UnitResult {
 		return res
 	}
 	if spec.Flags["trusted"] {
-		res.Assumed = []string{"contract of " + u.Name + " is trusted (body not verified)"}
+		// a trusted contract is trusted for the body it was written against: the body is pinned (spec/trusted_pins.json,
+		// `govc pins`); a different body makes the unit undecided, which sends the property to its bounded stand-in
+		pin := en.bodyPin(u)
+		want, pinned := en.trustedPins()[u.Name]
+		switch {
+		case !pinned:
+			res.Undecided = []string{"trusted contract of " + u.Name + " has no pinned body (run `govc pins` after reviewing it)"}
+		case pin != want:
+			res.Undecided = []string{fmt.Sprintf("body of %s changed since its trusted contract was reviewed (pin %s, now %s): the contract is not trusted for this body", u.Name, want, pin)}
+		default:
+			res.Assumed = []string{"contract of " + u.Name + " is trusted (body not verified; pinned " + pin + ")"}
+		}
 		return res
 	}
 	st := &State{vars: map[types.Object]Term{}, fields: map[string]*HeapVer{}, ghost: map[string]Term{}, models: map[string]*HeapVer{},
@@ -516,7 +550,9 @@ func (x *Exec) wfAstFieldPlain(st *State, key, ref string, val Term) {
 			tok := x.readField(st, "ast.AssignStmt.Tok", "Int", "(iref "+val.S+")")
 			st.assume(sNot(sAnd(sEq("(itag "+val.S+")", "K_AssignStmt"), sEq(tok.S, "TDEFINE"))))
 		}
-	case "ast.ForStmt.Cond", "ast.SwitchStmt.Tag", "ast.IfStmt.Cond", "ast.RangeStmt.Key", "ast.RangeStmt.Value":
+	case "ast.ForStmt.Cond", "ast.SwitchStmt.Tag", "ast.IfStmt.Cond", "ast.RangeStmt.Key", "ast.RangeStmt.Value",
+		"ast.ParenExpr.X", "ast.SelectorExpr.X", "ast.IndexExpr.X", "ast.IndexExpr.Index", "ast.IndexListExpr.X", "ast.CallExpr.Fun":
+		// no typed-nil nodes
 		st.assume(sOr(sEq(val.S, "nilIface"), sNot(sEq("(iref "+val.S+")", "nilRef"))))
 	case "ast.ExprStmt.X":
 		st.assume(sAnd(sNot(sEq("(itag "+val.S+")", "0")), sNot(sEq("(iref "+val.S+")", "nilRef"))))
